@@ -922,10 +922,6 @@ def static_obligations(run):
             run.not_proved.append(f"{t} is a partial result (see comment in C07/Props.v)")
     run.notes["print_assumptions"] = pa
     run.not_proved += [
-        "light cone: dropped gates in controlled_by form (operator cembed): light_cone_reindexed_reduced_state needs the "
-        "operator of every DROPPED gate as embed n qs U with U^+ U = 1 (proved for all gates not in controlled_by form, "
-        "plain_unitary_gates_qualify); cembed n cs ts M = embed n (cs++ts) (controlled M) is not proved (kept gates may "
-        "be of any form)",
         "light cone: dropped non-unitary operations (collapsing measurements, channels) are outside the matrix-level "
         "theorem; the abstract light_cone_reduced_state covers them given its premise",
         "light cone: that the reduced initial state Tr_{not cone}|0..0><0..0| is |0..0><0..0| on the cone (the theorem is "
